@@ -26,6 +26,14 @@ theorem C09_truncate (msg : Bytes) (max : Nat) :
   obtain ⟨r, h, hr⟩ := formatText_spec msg max
   exact ⟨r, by omega, h, by simp [Nat.min_comm]⟩
 
+/-- why the maximum must be read once per call (patches/C09-03): in the code as found a
+`LogSetMaxLength(10)` between the first and second round of a call formatting 5 bytes under
+the old maximum 3 makes it dispatch `text_len = 10` over a buffer holding 5 formatted bytes -/
+theorem C09_max_change_counterexample :
+    fmtLoopVar 5 [3, 10, 10] (fmtInit 3) = some (10, 5, true) ∧
+    fmtLoopVar 5 [3, 3, 3] (fmtInit 3) = some (3, 3, true) := by
+  decide
+
 /-- the `LogPuts` path cuts at the same place with the same flag -/
 theorem C09_truncate_puts (msg : Bytes) (max : Nat) :
     putsText msg max = (msg.take max, decide (max < msg.length)) := by
